@@ -71,6 +71,13 @@ class CollectionFlow(Engine):
             st.mon['pending'] = (st.mon.get('pending') or 0) + 1
             st.mon['caught'] = exc.cls
 
+    def on_raise(self, stmt, exc, st):
+        # the only exceptions merge() may let out are those of the step itself (re-raised unchanged)
+        if st.frame.func is not None and st.frame.func.short == 'MosCollection.merge' and stmt.exc is not None:
+            self.find_('STRICT-RERAISE', st, stmt, norm(stmt),
+                       'merge() raises an exception of its own: the error that propagates is not the one of the failing message, '
+                       'and the running order does not hold the result of the earlier messages')
+
     def on_warn(self, st, node, category, message):
         self.count('warn', st, node)
         name = category.qual.split(':')[-1] if isinstance(category, ClsV) else '?'
